@@ -227,6 +227,17 @@ theorem dctx_stable (cfg : Cfg) (s s' : Sys) (t u : Tid) (c : DCtx)
   step_cases hs hpc htd
   all_goals grind [upd, Pc.dctx]
 
+/-- The last step of a `disconnect`. -/
+theorem drel_step (cfg : Cfg) (s s' : Sys) (t : Tid) (c : DCtx)
+    (hpc : (s.thr t).pc = .user (.dRel c)) (hs : step cfg s t = some s') :
+    s'.wire = s.wire ∧ s'.sockOpen = s.sockOpen ∧ (s'.thr t).pc = .user .idle ∧
+      s'.log = s.log ++ [(t, .rel)] := by
+  unfold step at hs
+  rw [hpc] at hs
+  simp only [stepUser, Option.some.injEq] at hs
+  subst hs
+  simp [upd]
+
 /-! ### `fail` is only ever raised to the caller of a forced write -/
 
 theorem fail_only_forced (cfg : Cfg) (progs : List (List Op)) (s s' : Sys) (t : Tid)
